@@ -208,8 +208,17 @@ def cls_tag(a, b):
     return k(a) + "|" + k(b)
 
 
-def mk_rpm(name, evr):
-    return InstalledRpm({"name": name, "epoch": str(evr[0]), "version": evr[1], "release": evr[2], "arch": "x86_64"})
+class _SubRpm(InstalledRpm):
+    """a subclass a consumer might write: ordering is about name/epoch/version/release, never about the class"""
+
+
+def _classes():
+    from insights.parsers.yum_list import YumListRpm
+    return {"InstalledRpm": InstalledRpm, "YumListRpm": YumListRpm, "subclass": _SubRpm}
+
+
+def mk_rpm(name, evr, cls="InstalledRpm"):
+    return _classes()[cls]({"name": name, "epoch": str(evr[0]), "version": evr[1], "release": evr[2], "arch": "x86_64"})
 
 
 def ops_impl(a, b):
@@ -325,7 +334,11 @@ def run(chk):
         y = rng.choice([gen_evr(), (x[0], x[1], mutate(rng, x[2])), (x[0], mutate(rng, x[1]), x[2]), x])
         n1 = rng.choice(["bash", "kernel"])
         n2 = n1 if rng.random() < 0.85 else "glibc"
-        a, b = mk_rpm(n1, x), mk_rpm(n2, y)
+        # the two sides are objects of the base class, of the yum-list subclass or of a consumer's subclass, mixed
+        c1 = rng.choice(["InstalledRpm", "InstalledRpm", "YumListRpm", "subclass"])
+        c2 = rng.choice(["InstalledRpm", "InstalledRpm", "YumListRpm", "subclass"])
+        a, b = mk_rpm(n1, x, c1), mk_rpm(n2, y, c2)
+        chk.count("evr:classes:" + ("same" if c1 == c2 else "mixed"))
         c = rpm_version_compare(a, b)
         ops = ops_impl(a, b)
         evr_cases.append((n1, x, n2, y))
@@ -339,12 +352,12 @@ def run(chk):
             want = ",".join("1" if v else "0" for v in (c == 0, c != 0, c < 0, c <= 0, c > 0, c >= 0))
             if ops != want:
                 chk.failure("operators disagree with rpm_version_compare=%d: %s (eq,ne,lt,le,gt,ge) for %r vs %r" % (c, ops, x, y),
-                            {"op": "ops", "n1": n1, "x": x, "n2": n2, "y": y})
+                            {"op": "ops", "n1": n1, "x": x, "n2": n2, "y": y, "c1": c1, "c2": c2})
             ref = sgn(x[0] - y[0]) or c_rpmvercmp(x[1], y[1]) or c_rpmvercmp(x[2], y[2])
             if c != ref:
                 chk.failure("rpm_version_compare(%r,%r)=%d, RPM gives %d" % (x, y, c, ref), {"op": "evr", "x": x, "y": y, "want": ref})
         elif ops != "E,E,E,E,E,E":
-            chk.failure("packages with different names were compared: %s" % ops, {"op": "ops", "n1": n1, "x": x, "n2": n2, "y": y})
+            chk.failure("packages with different names were compared: %s" % ops, {"op": "ops", "n1": n1, "x": x, "n2": n2, "y": y, "c1": c1, "c2": c2})
     out = run_driver("C13", lines)
     model = ["%s|%s" % (out[2 * i], out[2 * i + 1]) for i in range(len(evr_cases))]
     chk.compare("evr+operators", evr_cases, impl, model)
@@ -425,12 +438,18 @@ def replay(data):
         bad = (x <= 0 and y <= 0 and z > 0) or (x >= 0 and y >= 0 and z < 0) or (x == 0 and y == 0 and z != 0)
     elif op in ("ops", "evr"):
         x, y = tuple(c["x"]), tuple(c["y"])
-        a, b = mk_rpm(c.get("n1", "p"), x), mk_rpm(c.get("n2", "p"), y)
+        a, b = mk_rpm(c.get("n1", "p"), x, c.get("c1", "InstalledRpm")), mk_rpm(c.get("n2", "p"), y, c.get("c2", "InstalledRpm"))
+        print("classes: %s vs %s" % (type(a).__name__, type(b).__name__))
         cmpv = rpm_version_compare(a, b)
         ref = sgn(x[0] - y[0]) or c_rpmvercmp(x[1], y[1]) or c_rpmvercmp(x[2], y[2])
         print("impl compare=%d ops=%s  RPM=%d" % (cmpv, ops_impl(a, b), ref))
-        bad = cmpv != ref or (c.get("n1") == c.get("n2") and ops_impl(a, b) != ",".join(
-            "1" if v else "0" for v in (cmpv == 0, cmpv != 0, cmpv < 0, cmpv <= 0, cmpv > 0, cmpv >= 0)))
+        if c.get("n1") == c.get("n2"):
+            bad = cmpv != ref or ops_impl(a, b) != ",".join(
+                "1" if v else "0" for v in (cmpv == 0, cmpv != 0, cmpv < 0, cmpv <= 0, cmpv > 0, cmpv >= 0))
+        else:
+            # packages with different names are not comparable: every operator refuses (ValueError)
+            bad = ops_impl(a, b) != "E,E,E,E,E,E"
+            print("different names: every operator must refuse, got %s" % ops_impl(a, b))
     elif op in ("max", "min"):
         evrs = [tuple(e) for e in c["evrs"]]
         try:
